@@ -338,7 +338,7 @@ func (g *pairGen) mutate(kind string, x, y proto.Message) (mut, bool) {
 		}
 		a, b := unknownField(1000, uint64(r.Intn(3))), unknownBytesField(1001, []string{"", "a"}[r.Intn(2)])
 		xn := g.sameNode(x, y, n)
-		switch r.Intn(5) {
+		switch r.Intn(8) {
 		case 0: // only y has one
 			n.SetUnknown(append(append([]byte{}, n.GetUnknown()...), a...))
 		case 1: // both the same
@@ -357,10 +357,55 @@ func (g *pairGen) mutate(kind string, x, y proto.Message) (mut, bool) {
 			if xn != nil {
 				xn.SetUnknown(append(append([]byte{}, a2...), a...))
 			}
-		default: // same length, different content
+		case 4: // same length, different content
 			n.SetUnknown(unknownField(1000, 1))
 			if xn != nil {
 				xn.SetUnknown(unknownField(1000, 2))
+			}
+		default:
+			// one field number occurring 2-3 times, interleaved with another number; the two sides
+			// differ in the first / middle / last occurrence (same total length), in length, in the
+			// order of the occurrences of one number, or only in how the two numbers interleave (equal)
+			k := 2 + r.Intn(2)
+			vals := make([]uint64, k)
+			for i := range vals {
+				vals[i] = uint64(1 + r.Intn(5))
+			}
+			build := func(vs []uint64, otherAt int) []byte {
+				var out []byte
+				for i, v := range vs {
+					if i == otherAt {
+						out = append(out, b...)
+					}
+					out = append(out, unknownField(1000, v)...)
+				}
+				if otherAt >= len(vs) {
+					out = append(out, b...)
+				}
+				return out
+			}
+			at := r.Intn(k + 2) // k+1: no other number at all
+			n.SetUnknown(build(vals, at))
+			if xn != nil {
+				xv := append([]uint64{}, vals...)
+				xat := at
+				switch r.Intn(6) {
+				case 0: // first occurrence differs
+					xv[0] += 10
+				case 1: // a middle (or the last of two) occurrence differs
+					xv[k/2] += 10
+				case 2: // last occurrence differs
+					xv[k-1] += 10
+				case 3: // longer varint: different total length
+					xv[r.Intn(k)] += 300
+				case 4: // occurrences of the same number reordered
+					xv[0], xv[k-1] = xv[k-1], xv[0]
+				default: // only the other number moves: equal for proto.Equal
+					if at <= k {
+						xat = (at + 1 + r.Intn(k)) % (k + 1)
+					}
+				}
+				xn.SetUnknown(build(xv, xat))
 			}
 		}
 	case "nested-float":
